@@ -25,7 +25,8 @@ Open Scope string_scope.
 
 (** * Driver values (database/sql/driver.Value) *)
 Inductive dval : Type :=
-| DNull | DInt (z : Z) | DFloat (q : Z) | DBool (b : bool) | DBytes (s : string) | DStr (s : string) | DTime (t : Z).
+| DNull | DInt (z : Z) | DFloat (q : Z) | DBool (b : bool) | DBytes (s : string) | DStr (s : string).
+(* time.Time values do not occur in this model (C13's Sql/Codec.v has them). *)
 
 Definition dval_eqb (a b : dval) : bool :=
   match a, b with
@@ -35,7 +36,6 @@ Definition dval_eqb (a b : dval) : bool :=
   | DBool x, DBool y => Bool.eqb x y
   | DBytes x, DBytes y => String.eqb x y
   | DStr x, DStr y => String.eqb x y
-  | DTime x, DTime y => Z.eqb x y
   | _, _ => false
   end.
 
@@ -181,7 +181,6 @@ Definition go_of_dval (d : dval) : goval :=
   | DBool b => GBool b
   | DBytes s => GBytes s
   | DStr s => GStr "" s
-  | DTime _ => GNil   (* times do not occur in this model *)
   end.
 
 (** * Filters and WHERE clauses *)
@@ -559,7 +558,7 @@ Definition sql_eq (a b : dval) : tri :=
       | _, _ =>
           match text_of a, text_of b with
           | Some x, Some y => if String.eqb x y then TT else TF
-          | _, _ => match a, b with DTime x, DTime y => if Z.eqb x y then TT else TF | _, _ => TF end
+          | _, _ => TF
           end
       end
   end.
@@ -749,3 +748,54 @@ Definition arrival_consistent (h : handle) (t : table) (fs : list filter) (arriv
   && forallb (fun i => negb (outcome_is_proceeds (caller_outcome h t (nth_filter fs i)))
                        || Nat.eqb (count_occ_nat all i) 1) (seq 0 (List.length fs))
   && forallb (fun b => match b with [] => false | _ => true end) arrival.
+
+(** * Well-formedness of inputs (boolean; evaluated on every generated case, hypotheses of the theorems) *)
+
+(** Column names are identifiers: not empty, no ";" (makeBatchQuery joins them with ";" to key a group). *)
+Fixpoint no_semi (s : string) : bool :=
+  match s with
+  | EmptyString => true
+  | String c s' => negb (Ascii.eqb c ";"%char) && no_semi s'
+  end.
+Definition name_ok (s : string) : bool := no_semi s && negb (String.eqb s "").
+Definition table_ok (t : table) : bool := forallb name_ok (map c_name (t_cols t)).
+
+(** Structural equality of Go values. *)
+Fixpoint goval_eqb (a b : goval) : bool :=
+  match a, b with
+  | GNil, GNil => true
+  | GInt k n x, GInt k' n' y => ikind_eqb k k' && String.eqb n n' && Z.eqb x y
+  | GStr n x, GStr n' y => String.eqb n n' && String.eqb x y
+  | GBool x, GBool y => Bool.eqb x y
+  | GFloat x, GFloat y => Z.eqb x y
+  | GBytes x, GBytes y => String.eqb x y
+  | GPtr p x, GPtr q y => Nat.eqb p q && goval_eqb x y
+  | GNilPtr t, GNilPtr u => gty_eqb t u
+  | _, _ => false
+  end.
+
+(** A pointer has one pointee: equal addresses hold equal values. *)
+Definition ptr_okb (a b : goval) : bool :=
+  match a, b with
+  | GPtr p x, GPtr q y => negb (Nat.eqb p q) || goval_eqb x y
+  | _, _ => true
+  end.
+
+Definition filter_ptrs_okb (f limit : filter) : bool :=
+  forallb (fun kv => match lookup (fst kv) f with Some fv => ptr_okb fv (snd kv) | None => true end) limit.
+
+Definition handle_limits (h : handle) : list filter :=
+  (match h_shard h with Some l => [l] | None => [] end) ++ (match h_dyn h with Some l => [l] | None => [] end).
+
+Definition row_okb (t : table) (r : grow) : bool := Nat.eqb (List.length r) (List.length (t_cols t)).
+
+Definition op_wfb (h : handle) (t : table) (o : op) : bool :=
+  table_ok t &&
+  match o with
+  | OQuery f _ | OCount f => forallb (filter_ptrs_okb f) (handle_limits h)
+  | OInsertRows rs _ | OUpsertRows rs _ => forallb (row_okb t) rs
+  | _ => true
+  end.
+
+Definition batched_wfb (h : handle) (t : table) (fs : list filter) : bool :=
+  table_ok t && forallb (fun f => forallb (filter_ptrs_okb f) (handle_limits h)) fs.
